@@ -53,6 +53,11 @@ def opaque_arg(I, v):
             return SUUID(R.Rope.lit(bytes.fromhex(v["hex"])))
         if t == "list":
             return [opaque_arg(I, x) for x in v["items"]]
+        if t == "reader":
+            from pyvc.values import SObj
+
+            view = opaque_arg(I, {"__t__": "memoryview", "hex": v["hex"]})
+            return SObj(_G["P"].find_class("ASN1Reader"), {"_data": view, "_view": view})
     return v
 
 
@@ -108,7 +113,7 @@ def _one(case):
     from pyvc.interp import Interp
     from pyvc.path import PathCtx
     from pyvc.smt import Z
-    from pyvc.values import ClassRef, Coro, OutOfReach, PathEnd, PyRaise
+    from pyvc.values import ClassRef, Coro, OutOfReach, PathEnd, PyRaise, SObj
 
     P, REG = _G["P"], _G["REG"]
     fi = P.find_func(case["function"])
@@ -147,6 +152,9 @@ def _one(case):
             if failed_pre:
                 work.extend(ctx.pending)
                 continue  # the summary does not claim anything for this input
+            readers = [x for x in args if isinstance(x, SObj) and x.cls.name == "ASN1Reader"]
+            if readers:
+                r = [r, readers[0].fields["_view"]]  # the value and what the reader has left (as the native side reports it)
             if native["kind"] == "return":
                 cond = match(I, r, native["value"])
                 if cond is True or (cond is not False and ctx.solver.check(Z(cond), prove=True) != z3.unsat):
